@@ -286,110 +286,104 @@ func checkC04(c *Ctx, r *Report) {
 	} else {
 		name := c.FnName(aes)
 		r.Fn(name)
-		data := aes.Params[1]
-		succ := successReturns(aes)
-		// pad byte comparisons: If( data[i] != v ) inside a cycle
-		var cmpIfs []*ssa.If
-		for _, b := range aes.Blocks {
-			ifi, ok := b.Instrs[len(b.Instrs)-1].(*ssa.If)
-			if !ok {
+		// Decided on engine E2's comparison events, whatever form the loop takes: on every
+		// success path (1) the pad-length byte P — the last byte of the input — is at most
+		// the block size; (2) a loop compares consecutive bytes, from index (last − P) up to
+		// the pad-length byte, with 1,2,3,…, on every iteration; (3) no comparison of an
+		// input byte came out unequal on a path that succeeds.
+		evs, why := extractEvents(c, aes, nil)
+		nOK := 0
+		okCmp, okMis, okLoop, okBound := true, true, true, true
+		whyCmp := why
+		for _, le := range evs {
+			if !le.OK {
 				continue
 			}
-			op, x, y, _, isBin := condOf(ifi.Cond)
-			if !isBin || (op != token.NEQ && op != token.EQL) {
-				continue
-			}
-			for _, pr := range [][2]ssa.Value{{x, y}, {y, x}} {
-				ld, ok := pr[0].(*ssa.UnOp)
-				if !ok || ld.Op != token.MUL {
+			nOK++
+			// the pad-length byte: a loaded input byte at index len(data)−1
+			var padSym Sym = -1
+			var lastIdx Lin
+			for sy, ref := range le.Elem {
+				if ref.Org != "d" || len(ref.Idx.T) != 1 || ref.Idx.C != -1 {
 					continue
 				}
-				ia, ok := ld.X.(*ssa.IndexAddr)
-				if !ok || ia.X != ssa.Value(data) {
-					continue
-				}
-				_, iPhi := ia.Index.(*ssa.Phi)
-				vphi, vPhi := pr[1].(*ssa.Phi)
-				if iPhi && vPhi && phiCountsFromOne(vphi) {
-					cmpIfs = append(cmpIfs, ifi)
-				}
-			}
-		}
-		r.Check(len(cmpIfs) >= 1, name+"|pad-byte comparison", aes.Pos(), "loop compares data[i] with a counter starting at 1, step 1", "no loop comparing each confidentiality pad byte with its expected value 1,2,3,…")
-		for _, ifi := range cmpIfs {
-			// mismatch arm must reach only error returns
-			op, _, _, neg, _ := condOf(ifi.Cond)
-			mism := ifi.Block().Succs[0]
-			if (op == token.EQL) != neg {
-				mism = ifi.Block().Succs[1]
-			}
-			reach := reachAvoiding(aes, mism, nil, nil)
-			bad := false
-			for _, ret := range succ {
-				if reach[ret.Block()] && ret.Block() != ifi.Block() {
-					// allowed only through the loop back edge? a mismatch must not lead to success
-					bad = true
-				}
-			}
-			// the mismatch arm must itself be an error return block
-			_, isRet := mism.Instrs[len(mism.Instrs)-1].(*ssa.Return)
-			r.Check(isRet && !(bad && !isRet), name+"|pad mismatch is an error", ifi.Pos(), "mismatch returns an error", "a mismatching pad byte does not lead to an error return")
-			// success must pass through the loop head (the block of the comparison's loop)
-			avoidB := map[*ssa.BasicBlock]bool{}
-			// find loop header: a predecessor-dominating block with a back edge; approximate by the block holding the phi
-			_, x, y, _, _ := condOf(ifi.Cond)
-			for _, v := range []ssa.Value{x, y} {
-				if ph, ok := v.(*ssa.Phi); ok {
-					avoidB[ph.Block()] = true
-				}
-			}
-			rr := reachAvoiding(aes, nil, avoidB, nil)
-			for _, ret := range succ {
-				r.Check(!rr[ret.Block()], name+"|success passes the pad loop", ret.Pos(), "success exit is behind the pad-checking loop", "the success exit is reachable without going through the pad-checking loop")
-			}
-		}
-		// pad length bound: an If comparing the pad length (last byte) > blocksize whose true arm returns error, dominating success
-		okBound := false
-		for _, b := range aes.Blocks {
-			ifi, ok := b.Instrs[len(b.Instrs)-1].(*ssa.If)
-			if !ok {
-				continue
-			}
-			op, x, _, _, isBin := condOf(ifi.Cond)
-			if !isBin || (op != token.GTR && op != token.GEQ && op != token.LSS && op != token.LEQ) {
-				continue
-			}
-			ld, ok := stripConv(x).(*ssa.UnOp)
-			if !ok || ld.Op != token.MUL {
-				continue
-			}
-			ia, ok := ld.X.(*ssa.IndexAddr)
-			if !ok || ia.X != ssa.Value(data) {
-				continue
-			}
-			// index must be len(data)-1
-			if bo, ok := ia.Index.(*ssa.BinOp); ok && bo.Op == token.SUB {
-				if k, isK := constInt(bo.Y); isK && k == 1 {
-					if call, ok := bo.X.(*ssa.Call); ok {
-						if bi, ok := call.Call.Value.(*ssa.Builtin); ok && bi.Name() == "len" {
-							okBound = true
-							// success must be unreachable via the "too large" arm
-							big := b.Succs[0]
-							if op == token.LSS || op == token.LEQ {
-								big = b.Succs[1]
-							}
-							rr := reachAvoiding(aes, big, nil, nil)
-							for _, ret := range succ {
-								if rr[ret.Block()] {
-									okBound = false
-								}
-							}
-						}
+				for ls, k := range ref.Idx.T {
+					if k == 1 && strings.HasPrefix(le.SymName(ls), "len(") && (padSym < 0 || sy < padSym) {
+						padSym, lastIdx = sy, ref.Idx
 					}
 				}
 			}
+			if padSym < 0 {
+				okCmp, whyCmp = false, "the pad-length byte (last input byte) is never read"
+				continue
+			}
+			P := linSym(padSym)
+			if !entails(le.Cons, leq(P, linConst(16))) {
+				okBound = false
+			}
+			for _, ev := range le.eventsOf("cmp", "d") {
+				if strings.HasPrefix(ev.Val, "ne") {
+					okMis = false
+				}
+			}
+			found := false
+			last := "no loop compares the pad bytes with 1,2,3,…"
+			for _, ev := range le.eventsOf("loop:cmp", "d") {
+				if !strings.HasPrefix(ev.Val, "eq") {
+					continue
+				}
+				run, w := runOf(ev)
+				if w != "" {
+					last = w
+					continue
+				}
+				if !linEq(run.V0, linConst(1)) || run.VAdv != 1 {
+					last = "the expected pad values do not start at 1 and rise by 1"
+					continue
+				}
+				if !linEq(run.Idx0, lastIdx.add(P, -1)) {
+					last = "the comparison does not start at the first pad byte (last − pad length)"
+					continue
+				}
+				if cov, w := run.coversUpTo(lastIdx, le.Cons); !cov {
+					last = w
+					continue
+				}
+				// on every way round the loop
+				every := true
+				for _, mk := range le.Events {
+					if mk.Kind != "loop:path" || mk.Loop == nil || mk.Loop.Pos != ev.Loop.Pos {
+						continue
+					}
+					has := false
+					for _, e2 := range le.eventsOf("loop:cmp", "d") {
+						if e2.Loop != nil && strings.Join(e2.Loop.Guard, " ∧ ") == mk.Name && strings.HasPrefix(e2.Val, "eq") && e2.Pos == ev.Pos {
+							has = true
+						}
+					}
+					if !has {
+						every = false
+					}
+				}
+				if !every {
+					okLoop = false
+					last = "an iteration can continue without the pad byte having compared equal"
+					continue
+				}
+				found = true
+			}
+			if !found {
+				okCmp, whyCmp = false, last
+			}
 		}
-		r.Check(okBound, name+"|pad length bounded", aes.Pos(), "pad length > block size is an error", "the pad-length byte is not bounded by the block size before use")
+		if nOK == 0 {
+			r.Unk(name+"|pad-byte comparison", aes.Pos(), "no success path extracted: "+why)
+		} else {
+			r.Check(okCmp, name+"|pad-byte comparison", aes.Pos(), "a loop compares pad byte k with k, k = 1…n, for exactly the n bytes before the pad-length byte", "no loop comparing each confidentiality pad byte with its expected value 1,2,3,…: "+whyCmp)
+			r.Check(okMis, name+"|pad mismatch is an error", aes.Pos(), "no success path has an unequal pad comparison", "a mismatching pad byte does not lead to an error return")
+			r.Check(okLoop, name+"|success passes the pad loop", aes.Pos(), "every iteration compares", "the pad comparison is skipped on some iterations")
+			r.Check(okBound, name+"|pad length bounded", aes.Pos(), "pad length ≤ block size on success", "the pad-length byte is not bounded by the block size before use")
+		}
 	}
 
 	// ---- (4) closure rejects on decode error / wrong innermost layer (shared shape with C10)
